@@ -51,6 +51,8 @@ type HarnessInfo struct {
 	ReplayInterp bool
 	NoBlock  bool
 	Relabel  map[string]string
+	MaxClasses int
+	UnwindCheck bool // pose the unwinding query also when the harness is run for C19
 	Twin     bool // vacuity twin: the harness is built to violate; a run in which it does not is broken
 	BlockOK  bool
 }
@@ -240,6 +242,10 @@ func Load(groups []string) (*Loaded, error) {
 					h.POLoop, _ = strconv.Atoi(strings.TrimSpace(m[2]))
 				case "maxspawn":
 					h.MaxSpawn, _ = strconv.Atoi(strings.TrimSpace(m[2]))
+				case "maxclasses":
+					h.MaxClasses, _ = strconv.Atoi(strings.TrimSpace(m[2]))
+				case "unwindcheck":
+					h.UnwindCheck = true
 				case "potimeout":
 					h.POTimeout, _ = strconv.Atoi(strings.TrimSpace(m[2]))
 				case "also":
